@@ -22,7 +22,7 @@ import numpy as np
 from harness.common import enc, to_zs, kids, tag, is_err
 
 PROP = 'C03'
-GENERATORS = []
+GENERATORS = ['gen_links']
 TRUSTED = [
     'hand model coq/C03/Model.v of discover_links, Data.get_data/ComponentLink.compute through the table, and of the '
     'DataCollection/LinkManager triggers (which operation recomputes the tables); tied to the code by the correspondence streams only',
@@ -1340,6 +1340,9 @@ def run_discover(R, name, cases, exhaustive, bound):
             R.fail('oracle', {'stream': name, 'own': own, 'links': links}, {'why': 'discover_links did not return within 10 s'})
             too_many_hangs()
             continue
+        except (KeyError, ValueError) as ex:
+            R.fail('oracle', {'stream': name, 'own': own, 'links': links}, {'why': 'discover_links raised %s' % type(ex).__name__})
+            continue
         impl = [(num[c], idx[id(l)]) for c, l in res.items()]
         # chain depth through the returned dict
         chosen = {num[c]: links[idx[id(l)]] for c, l in res.items()}
@@ -1385,6 +1388,440 @@ def run_discover(R, name, cases, exhaustive, bound):
     R.stream(name, cases=len(cases), exhaustive=exhaustive, bound=bound)
 
 
+# ---------------------------------------------------------------------- streams: the TRANSLATED functions (coq/gen/Gen_links.v)
+# accessible_links / discover_links / find_dependents as regenerated from the source by tools/gen/gen_links.py, run through the
+# extracted model (run_case tags 3, 4, 5) against the live functions.  A disagreement is a translator bug or a source construct the
+# translation misrepresents; the property-level oracle is the one of the discover streams above.
+class FakeData:
+    """what discover_links / find_dependents read from a dataset"""
+    def __init__(self, main, coord, derived=None):
+        self.main_components = list(main)
+        self.coordinate_components = list(coord)
+        self._derived = derived or {}
+
+    @property
+    def derived_components(self):
+        return list(self._derived)
+
+    def get_component(self, cid):
+        return self._derived[cid]
+
+
+class FakeDerived:
+    def __init__(self, link):
+        self.link = link
+
+
+def gen_discover_cases(R):
+    a, b, x, y = (0, 2), (0, 3), (1, 2), (2, 2)
+    U = [a, b, x, y]
+    singles = [((p,), q) for p in U for q in U]
+    extra = [((), x), ((), a), ((a, x), y), ((x, a), y), ((x, x), y), ((a, b), x), ((x, y), b), ((b, y), x)]
+    alpha = singles + extra
+    cases = []
+    splits = [([a], [b]), ([a, b], []), ([], [a]), ([a], [a, b]), ([], [])]
+    for ln in range(0, 3):
+        for seq in itertools.product(range(len(alpha)), repeat=ln):
+            for main, coord in (splits if ln < 2 else splits[:2]):
+                cases.append((main, coord, [alpha[i] for i in seq]))
+    # length 3 over the links that matter for relaxation (chains, a diamond, a shortcut, the empty-input link)
+    core = [((a,), x), ((x,), y), ((a,), y), ((y,), x), ((b,), y), ((a, x), y), ((), x), ((y,), a), ((x, y), b)]
+    for seq in itertools.product(range(len(core)), repeat=3):
+        cases.append(([a], [b], [core[i] for i in seq]))
+    n_ex = len(cases)
+    n = R.pick(1500, 12000)
+    for i in range(n):
+        rng = R.subrng('gdisc', i)
+        nu = rng.randint(3, 12)
+        Ucs = [(j % 4, 2 + j // 4) for j in range(nu)]
+        main = [rng.choice(Ucs) for _ in range(rng.randint(0, 3))]
+        coord = [rng.choice(Ucs) for _ in range(rng.randint(0, 2))]
+        links = []
+        for _ in range(rng.randint(1, 25)):
+            k = rng.choice([0, 1, 1, 1, 1, 2, 2, 3])
+            links.append((tuple(rng.choice(Ucs) for _ in range(k)), rng.choice(Ucs)))
+        cases.append((main, coord, links))
+    return cases, n_ex
+
+
+def run_gen_discover(R, cases=None, replaying=False):
+    from glue.core import ComponentID
+    from glue.core.component_link import ComponentLink
+    from glue.core.link_manager import discover_links, accessible_links
+    n_ex = 0
+    if cases is None:
+        cases, n_ex = gen_discover_cases(R)
+    cid = {}
+
+    def get(c):
+        if c not in cid:
+            cid[c] = ComponentID('c%d_%d' % c)
+        return cid[c]
+    f = mkfn((0, (1, 1, 1)))
+    lines = []
+    for main, coord, links in cases:
+        wl = (0, [w_link(j, fr, to, (0, (1,) * len(fr))) for j, (fr, to) in enumerate(links)])
+        lines.append(enc((3, [(0, [w_cid(c) for c in main]), (0, [w_cid(c) for c in coord]), wl])))
+        lines.append(enc((4, [(0, [w_cid(c) for c in main + coord]), wl])))
+    outs = R.model(lines) if R.model_available else None
+    bad = 0
+    for i, (main, coord, links) in enumerate(cases):
+        num = {}
+        objs = [ComponentLink([get(p) for p in fr], get(to), using=f) for fr, to in links]
+        idx = {id(l): j for j, l in enumerate(objs)}
+        for c in list(main) + list(coord):
+            get(c)
+        num = {v: k for k, v in cid.items()}
+        case = {'stream': 'gen_discover', 'main': main, 'coord': coord, 'links': links}
+        D = FakeData([get(c) for c in main], [get(c) for c in coord])
+        try:
+            with time_limit(10):
+                res = discover_links(D, objs)
+                impl = [(num[c], idx[id(l)]) for c, l in res.items()]
+        except Hang:
+            R.fail('oracle', case, {'why': 'discover_links did not return within 10 s'})
+            too_many_hangs()
+            continue
+        except (KeyError, ValueError) as ex:
+            impl = ('error', type(ex).__name__)
+            R.fail('oracle', case, {'why': 'discover_links raised %s on a well-formed dataset and list of links' % type(ex).__name__})
+        acc = [idx[id(l)] for l in accessible_links([get(c) for c in main + coord], objs)]
+        if isinstance(impl, list):
+            # the property itself, independent of the model: keys = closure, stored chains have the minimum length
+            chosen = {c: links[j] for c, j in impl}
+            ownset = set(main) | set(coord)
+
+            def dep(c, seen=0):
+                if c in ownset:
+                    return 0
+                if c not in chosen or seen > 40:
+                    return -1
+                rs = [dep(x, seen + 1) for x in chosen[c][0]]
+                return -1 if any(r < 0 for r in rs) else 1 + max(rs + [0])
+            impl_depth = {c: dep(c) for c in chosen}
+            depth, _ = fixpoint(ownset, [(fr, to, None) for fr, to in links])
+            want = {c: kk for c, kk in depth.items() if c not in ownset}
+            if impl_depth != want:
+                R.fail('oracle', case, {'why': 'discover_links: keys / chain lengths differ from the closure', 'impl': sorted(impl_depth.items()),
+                                        'expected': sorted(want.items())})
+        if not replaying:
+            R.count(('gdisc', tuple(main), tuple(coord), tuple(links)), nontrivial=isinstance(impl, list) and len(impl) > 0,
+                    stream='gen_discover', links=min(len(links), 26))
+        if outs is None:
+            continue
+        o, oa = outs[2 * i], outs[2 * i + 1]
+        if is_err(o):
+            mt = ('error', {4: 'KeyError', 1: 'ValueError'}.get(tag(kids(o)[0]), 'code %d' % tag(kids(o)[0])))
+        else:
+            mt = [((tag(kids(kids(x)[0])[0]), tag(kids(kids(x)[0])[1])), tag(kids(x)[1])) for x in kids(kids(o)[0])]
+        ma = to_zs(oa)
+        if mt != impl or ma != acc:
+            bad += 1
+            if bad <= 5:
+                R.fail('correspondence', case, {'why': 'the translated discover_links / accessible_links (coq/gen/Gen_links.v) disagree with the live functions',
+                                                'generated': mt, 'impl': impl, 'generated_accessible': ma, 'impl_accessible': acc})
+    if replaying:
+        return bad
+    if cases:
+        m = cases[len(cases) // 3]
+        R.sample({'stream': 'gen_discover', 'main': m[0], 'coord': m[1], 'links': m[2]})
+    R.stream('gen_discover', cases=len(cases), exhaustive=False,
+             bound='translated discover_links + accessible_links vs the live functions: %d exhaustive (main/coordinate splits of {a,b}, attributes '
+                   '{a,b,x,y}, all ordered lists of <=2 links out of 24 incl. empty-input, duplicate-input and two-input links; all 3-lists over 9 '
+                   'relaxation-relevant links) + %d random (0..3 main, 0..2 coordinate possibly overlapping, 1..25 links with 0..3 inputs)'
+                   % (n_ex, len(cases) - n_ex))
+
+
+def gen_dependents_cases(R):
+    """(derived links in Data.derived_components order, the link asked about): derived attribute j is (0, 10 + j)"""
+    cases = []
+    base = [(0, 2), (0, 3)]
+    # exhaustive: up to 3 derived components, each computed from 1 or 2 of {base, earlier or later derived ones}
+    for nd in range(0, 4):
+        targets = [(0, 10 + j) for j in range(nd)]
+        pool = base[:1] + targets
+        froms = [(p,) for p in pool] + [(base[0], t) for t in targets] + [(base[1],)]
+        for combo in itertools.product(range(len(froms)), repeat=nd):
+            der = [(froms[combo[j]], targets[j]) for j in range(nd)]
+            for ask in list(range(nd)) + [-1]:
+                cases.append((der, ask))
+    n_ex = len(cases)
+    for i in range(R.pick(400, 4000)):
+        rng = R.subrng('gdep', i)
+        nd = rng.randint(1, 8)
+        targets = [(0, 10 + j) for j in range(nd)]
+        pool = base + targets
+        der = [(tuple(rng.choice(pool) for _ in range(rng.choice([1, 1, 2, 3]))), targets[j]) for j in range(nd)]
+        rng.shuffle(der)
+        cases.append((der, rng.randint(-1, nd - 1)))
+    return cases, n_ex
+
+
+def run_gen_dependents(R, cases=None, replaying=False):
+    from glue.core import ComponentID
+    from glue.core.component_link import ComponentLink
+    from glue.core.link_manager import find_dependents
+    n_ex = 0
+    if cases is None:
+        cases, n_ex = gen_dependents_cases(R)
+    cid = {}
+
+    def get(c):
+        if c not in cid:
+            cid[c] = ComponentID('c%d_%d' % c)
+        return cid[c]
+    f = mkfn((0, (1, 1, 1)))
+    lines = []
+    for der, ask in cases:
+        other = w_link(999, ((0, 2),), (0, 99), (0, (1,)))
+        wl = [w_link(j, fr, to, (0, (1,) * len(fr))) for j, (fr, to) in enumerate(der)]
+        lines.append(enc((5, [(0, wl), wl[ask] if ask >= 0 else other])))
+    outs = R.model(lines) if R.model_available else None
+    bad = 0
+    for i, (der, ask) in enumerate(cases):
+        objs = [ComponentLink([get(p) for p in fr], get(to), using=f) for fr, to in der]
+        num = {v: k for k, v in cid.items()}
+        D = FakeData([], [], {get(to): FakeDerived(l) for (fr, to), l in zip(der, objs)})
+        asked = objs[ask] if ask >= 0 else ComponentLink([get((0, 2))], get((0, 99)), using=f)
+        num = {v: k for k, v in cid.items()}
+        case = {'stream': 'gen_dependents', 'derived': der, 'ask': ask}
+        try:
+            with time_limit(10):
+                impl = sorted(num[c] for c in find_dependents(D, asked))
+        except Hang:
+            R.fail('correspondence', case, {'why': 'find_dependents did not return within 10 s'})
+            too_many_hangs()
+            continue
+        if not replaying:
+            R.count(('gdep', tuple(der), ask), nontrivial=len(impl) > 0, stream='gen_dependents', links=len(der))
+        if outs is None:
+            continue
+        o = outs[i]
+        if is_err(o):
+            mt = ('error', tag(kids(o)[0]))
+        else:
+            mt = sorted((tag(kids(x)[0]), tag(kids(x)[1])) for x in kids(kids(o)[0]))
+        if mt != impl:
+            bad += 1
+            if bad <= 5:
+                R.fail('correspondence', case, {'why': 'the translated find_dependents (coq/gen/Gen_links.v) disagrees with the live function',
+                                                'generated': mt, 'impl': impl})
+    if replaying:
+        return bad
+    R.stream('gen_dependents', cases=len(cases), exhaustive=False,
+             bound='translated find_dependents vs the live function: %d exhaustive (<=3 derived components over 1-2 inputs out of a base attribute '
+                   'and the derived ones, every link asked about + a foreign link) + %d random (1..8 derived components, 1..3 inputs, shuffled order)'
+                   % (n_ex, len(cases) - n_ex))
+
+
+def gen_handler_cases(R):
+    """(entries, ext, what): entries[i] = list of (from-cids, to-cid) sublinks (one = a plain ComponentLink, several / flagged = a
+    LinkCollection); ext = the indices in _external_links order (an index may repeat: the same link registered twice);
+    what = ('comp', cid) | ('data', d, components-of-d)"""
+    cases = []
+    U = [(d, j) for d in range(3) for j in range(2, 4)]
+    # exhaustive: 3 fixed entries, every ext list of length <= 3 over them, every removed cid / dataset
+    ents = [(False, [(((0, 2),), (1, 2))]), (True, [(((1, 2),), (2, 2)), (((2, 2),), (1, 2))]), (False, [(((0, 2), (2, 3)), (0, 3))])]
+    for ln in range(0, 4):
+        for ext in itertools.product(range(3), repeat=ln):
+            for c in [(0, 2), (1, 2), (2, 2), (2, 3), (1, 3)]:
+                cases.append((ents, list(ext), ('comp', c)))
+            for d in range(3):
+                cases.append((ents, list(ext), ('data', d, [(d, 2), (d, 3)])))
+            cases.append((ents, list(ext), ('data', 1, [(1, 3), (0, 2)])))     # a component whose parent is another dataset
+    n_ex = len(cases)
+    for i in range(R.pick(600, 5000)):
+        rng = R.subrng('ghand', i)
+        ne = rng.randint(1, 6)
+        entries = []
+        for _ in range(ne):
+            coll = rng.random() < 0.4
+            subs = []
+            for _ in range(rng.randint(1, 3) if coll else 1):
+                subs.append((tuple(rng.choice(U) for _ in range(rng.choice([1, 1, 2]))), rng.choice(U)))
+            entries.append((coll, subs))
+        ext = [rng.randrange(ne) for _ in range(rng.randint(0, 7))]
+        if rng.random() < 0.5:
+            what = ('comp', rng.choice(U))
+        else:
+            d = rng.randrange(3)
+            comps = [c for c in U if c[0] == d]
+            if rng.random() < 0.3:
+                comps.insert(rng.randrange(len(comps) + 1), rng.choice(U))
+            rng.shuffle(comps)
+            what = ('data', d, comps[:rng.randint(0, len(comps))])
+        cases.append((entries, ext, what))
+    return cases, n_ex
+
+
+def run_gen_handlers(R, cases=None, replaying=False):
+    import types
+    from glue.core import ComponentID
+    from glue.core.component_link import ComponentLink
+    from glue.core.link_helpers import LinkCollection
+    from glue.core.link_manager import LinkManager
+
+    class RecLM(LinkManager):
+        def update_externally_derivable_components(self, data=None):
+            self.events.append(0)
+    n_ex = 0
+    if cases is None:
+        cases, n_ex = gen_handler_cases(R)
+    datas = [types.SimpleNamespace(label='d%d' % d, components=[]) for d in range(3)]
+    cid = {}
+
+    def get(c):
+        if c not in cid:
+            cid[c] = ComponentID('c%d_%d' % c, parent=datas[c[0]])
+        return cid[c]
+    f = mkfn((0, (1, 1, 1)))
+    lines = []
+    for entries, ext, what in cases:
+        wp = []
+        for i, (coll, subs) in enumerate(entries):
+            wp.append((i, [(1 if coll else 0, []), (0, []),
+                           (0, [(0, [w_link(10 * i + j, fr, to, (0, (1,) * len(fr))), (0, [])]) for j, (fr, to) in enumerate(subs)])]))
+        if what[0] == 'comp':
+            lines.append(enc((6, [(0, wp), (0, list(ext)), w_cid(what[1])])))
+        else:
+            lines.append(enc((7, [(0, wp), (0, list(ext)), (what[1], []), (0, [w_cid(c) for c in what[2]])])))
+    outs = R.model(lines) if R.model_available else None
+    bad = 0
+    for k, (entries, ext, what) in enumerate(cases):
+        objs = []
+        for coll, subs in entries:
+            ls = [ComponentLink([get(x) for x in fr], get(to), using=f) for fr, to in subs]
+            if coll:
+                o = LinkCollection()
+                o._links[:] = ls
+            else:
+                o = ls[0]
+            objs.append(o)
+        lm = RecLM()
+        lm.events = []
+        lm._external_links = [objs[i] for i in ext]
+        if what[0] == 'comp':
+            msg = types.SimpleNamespace(component_id=get(what[1]))
+            call = lm._component_removed
+        else:
+            dobj = datas[what[1]]
+            dobj.components = [get(c) for c in what[2]]
+            msg = types.SimpleNamespace(data=dobj)
+            call = lm._data_removed
+        case = {'stream': 'gen_handlers', 'entries': entries, 'ext': ext, 'what': what}
+        try:
+            call(msg)
+            impl = ([next(i for i, o in enumerate(objs) if o is x) for x in lm._external_links], list(lm.events))
+        except ValueError:
+            impl = ('error', 1)
+        if not replaying:
+            R.count(('ghand', tuple((c, tuple(sl)) for c, sl in entries), tuple(ext), tup(what)),
+                    nontrivial=isinstance(impl, tuple) and len(impl[1]) > 0 if impl[0] != 'error' else True, stream='gen_handlers', links=len(ext))
+        if outs is None:
+            continue
+        o = outs[k]
+        if is_err(o):
+            mt = ('error', tag(kids(o)[0]))
+        else:
+            body = kids(o)[0]
+            mt = (to_zs(kids(body)[0]), [tag(x) for x in kids(kids(body)[1])])
+        if mt != impl:
+            bad += 1
+            if bad <= 5:
+                R.fail('correspondence', case, {'why': 'the translated LinkManager._component_removed / _data_removed / remove_link (coq/gen/Gen_links.v) '
+                                                       'disagree with the live methods', 'generated': mt, 'impl': impl})
+    if replaying:
+        return bad
+    R.stream('gen_handlers', cases=len(cases), exhaustive=False,
+             bound='translated _component_removed / _data_removed (+ remove_link) vs the live methods on a LinkManager whose update is recorded: '
+                   '%d exhaustive (3 entries incl. one LinkCollection, every _external_links list of <=3 of them with repeats, every removed '
+                   'attribute / dataset incl. a component with a foreign parent) + %d random (1..6 entries, 0..7 registered, 40%% collections)'
+                   % (n_ex, len(cases) - n_ex))
+
+
+class OrderedLinks(list):
+    """stands in for the set `self._links | self._inverse_links`: the enumeration order is the list's"""
+    def __or__(self, other):
+        return OrderedLinks(list(self) + list(other))
+
+
+def run_gen_update(R, cases=None, replaying=False):
+    """the loop of update_externally_derivable_components on real Data objects; _links / _inverse_links are replaced by an ordered
+    enumeration so that the chosen links can be compared exactly"""
+    from glue.core import Data, ComponentID
+    from glue.core.component_link import ComponentLink
+    from glue.core.link_manager import LinkManager
+
+    class OLM(LinkManager):
+        ordered = OrderedLinks()
+
+        @property
+        def _links(self):
+            return self.ordered
+
+        @property
+        def _inverse_links(self):
+            return OrderedLinks()
+    if cases is None:
+        cases = []
+        for i in range(R.pick(250, 2500)):
+            rng = R.subrng('gupd', i)
+            nd = rng.randint(1, 3)
+            nmain = [rng.randint(1, 2) for _ in range(nd)]
+            U = [(d, j) for d in range(nd) for j in range(0, 2 + nmain[d]) if j != 1]     # (d, 0) = pixel axis, (d, 2..) = main
+            extra = [(7, 2), (7, 3)]
+            links = []
+            for _ in range(rng.randint(0, 10)):
+                k = rng.choice([1, 1, 1, 2])
+                links.append((tuple(rng.choice(U + extra) for _ in range(k)), rng.choice(U + extra)))
+            cases.append((nmain, links))
+    f = mkfn((0, (1, 1, 1)))
+    lines = []
+    for nmain, links in cases:
+        dct = [(0, [(0, [w_cid((d, 2 + j)) for j in range(n)]), (0, [w_cid((d, 0))])]) for d, n in enumerate(nmain)]
+        lines.append(enc((8, [(0, dct), (0, [w_link(j, fr, to, (0, (1,) * len(fr))) for j, (fr, to) in enumerate(links)])])))
+    outs = R.model(lines) if R.model_available else None
+    bad = 0
+    for k, (nmain, links) in enumerate(cases):
+        cid, datas = {}, []
+        for d, n in enumerate(nmain):
+            D = Data(label='D%d' % d)
+            for j in range(n):
+                cid[(d, 2 + j)] = D.add_component(np.array([1, 2]), 'm%d' % j)
+            cid[(d, 0)] = D.pixel_component_ids[0]
+            datas.append(D)
+        for c in [(7, 2), (7, 3)]:
+            cid[c] = ComponentID('x%d_%d' % c)
+        num = {v: kk for kk, v in cid.items()}
+        objs = [ComponentLink([cid[x] for x in fr], cid[to], using=f) for fr, to in links]
+        idx = {id(l): j for j, l in enumerate(objs)}
+        lm = OLM(data_collection=datas)
+        lm.ordered = OrderedLinks(objs)
+        case = {'stream': 'gen_update', 'nmain': nmain, 'links': links}
+        lm.update_externally_derivable_components()
+        impl = [[(num[c], idx[id(comp.link)]) for c, comp in D._externally_derivable_components.items()] for D in datas]
+        if not replaying:
+            R.count(('gupd', tuple(nmain), tuple(links)), nontrivial=any(impl), stream='gen_update', links=len(links))
+        if outs is None:
+            continue
+        o = outs[k]
+        if is_err(o):
+            mt = ('error', tag(kids(o)[0]))
+        else:
+            body = kids(o)[0]
+            mt = [[((tag(kids(kids(x)[0])[0]), tag(kids(kids(x)[0])[1])), tag(kids(x)[1])) for x in kids(ev)] for ev in kids(kids(body)[1])]
+        if mt != impl:
+            bad += 1
+            if bad <= 5:
+                R.fail('correspondence', case, {'why': 'the translated loop of update_externally_derivable_components (coq/gen/Gen_links.v) installs other '
+                                                       'derived components than the live method', 'generated': mt, 'impl': impl})
+    if replaying:
+        return bad
+    R.stream('gen_update', cases=len(cases), exhaustive=False,
+             bound='translated `for data in data_collection` loop of update_externally_derivable_components vs the live method on 1..3 real Data '
+                   'objects (1..2 main components + pixel axis), 0..10 links over their attributes and two foreign ones, enumerated in list order')
+
+
 # ====================================================================== entry points
 def run(R):
     R.rule = ('discover streams: one case = (own attributes, ordered list of links); non-trivial when at least one attribute is derivable. '
@@ -1399,6 +1836,11 @@ def run(R):
             if n in R.streams:
                 R.streams[n]['wall_s'] = round(time.time() - t0, 1)
         t0 = time.time()
+    run_gen_discover(R)
+    run_gen_dependents(R)
+    run_gen_handlers(R)
+    run_gen_update(R)
+    lap(['gen_discover', 'gen_dependents', 'gen_handlers', 'gen_update'])
     cases, bound = discover_cases_exhaustive(R)
     run_discover(R, 'discover_exhaustive', cases, True, bound)
     lap(['discover_exhaustive'])
@@ -1414,6 +1856,15 @@ def run(R):
 
 
 def replay(R, case):
+    if case.get('stream') == 'gen_discover':
+        before = len(R.failures)
+        bad = run_gen_discover(R, [([tuple(c) for c in case['main']], [tuple(c) for c in case['coord']],
+                                    [(tuple(tuple(x) for x in fr), tuple(to)) for fr, to in case['links']])], replaying=True)
+        new = R.failures[before:]
+        return {'case': case, 'disagreements': bad, 'failures': new, 'violates': any(f['kind'] == 'oracle' for f in new)}
+    if case.get('stream') == 'gen_dependents':
+        bad = run_gen_dependents(R, [([(tuple(tuple(x) for x in fr), tuple(to)) for fr, to in case['derived']], case['ask'])], replaying=True)
+        return {'case': case, 'disagreements': bad, 'violates': False}
     if case.get('stream', '').startswith('discover'):
         own = [tuple(c) for c in case['own']]
         links = [(tuple(tuple(x) for x in fr), tuple(to)) for fr, to in case['links']]
